@@ -1,0 +1,26 @@
+//go:build verif
+
+// Package verifexport re-exports, for the external verification harness only (build tag `verif`),
+// what lives under pkg/edition/java/internal. No logic: aliases and forwarding functions.
+package verifexport
+
+import (
+	"go.minekube.com/gate/pkg/edition/java/internal/velocity"
+)
+
+// C20ConnectedPlayer is velocity.ConnectedPlayer.
+type C20ConnectedPlayer = velocity.ConnectedPlayer
+
+const (
+	C20IpForwardingChannel          = velocity.IpForwardingChannel
+	C20DefaultForwardingVersion     = velocity.DefaultForwardingVersion
+	C20WithKeyForwardingVersion     = velocity.WithKeyForwardingVersion
+	C20WithKeyV2ForwardingVersion   = velocity.WithKeyV2ForwardingVersion
+	C20LazySessionForwardingVersion = velocity.LazySessionForwardingVersion
+	C20ForwardingMaxVersion         = velocity.ForwardingMaxVersion
+)
+
+// C20CreateForwardingData forwards to velocity.CreateForwardingData.
+func C20CreateForwardingData(hmacSecret []byte, address string, player C20ConnectedPlayer, requestedVersion int) ([]byte, error) {
+	return velocity.CreateForwardingData(hmacSecret, address, player, requestedVersion)
+}
